@@ -42,7 +42,21 @@ def queries(tier):
                     desc='%s, %dx%d, alpha=%d, %d-bit samples, %s: exception or identical' % (('colour PPM/PAM save: file == canonical Netpbm header + raw samples', 'grayscale PPM/PAM input: (g,g,g[,a]) expansion, memory safety', 'colour PPM/PAM load of the canonical file: identity')[mode], W, H, A, CW, 'every prefix that ends inside the samples (symbolic)' if tlen is None else 'prefix of %d bytes (inside the header)' % tlen),
                     bounds='image %dx%d, all sample bytes, every truncation length' % (W, H))
     if tier == 'quick':
-        qs += [ppm(0, 2, 2, 0, 8), ppm(2, 2, 2, 0, 8), ppm(2, 2, 2, 0, 8, 5),  ppm(2, 1, 2, 0, 16), ppm(2, 2, 1, 0, 64), ppm(2, 2, 1, 0, 64, 27), ppm(1, 2, 2, 0, 8), ppm(1, 1, 2, 0, 16), ppm(2, 2, 1, 1, 8), ppm(1, 1, 2, 1, 8), ppm(0, 1, 1, 1, 16)]
+        qs += [ppm(0, 2, 2, 0, 8), ppm(2, 2, 2, 0, 8), ppm(2, 2, 2, 0, 8, 5),  ppm(2, 1, 2, 0, 16), ppm(2, 2, 1, 0, 64), ppm(2, 2, 1, 0, 64, 27), ppm(1, 2, 2, 0, 8), ppm(1, 1, 2, 0, 16), ppm(0, 1, 1, 1, 16)]
+    def png(W, H, A):
+        n = W * H * (3 + A) + 2
+        return dict(name='png_framing_%dx%da%d' % (W, H, A), unit='img', harness='h_png.c', defs={'W': W, 'H': H, 'ALPHA': A}, unwind=max(W * 4 + 2, 20),
+                    unwindset='in_bytes.0:%d,w_set_data.0:%d,verif_memset_loop.0:%d,X_fwrite.0:40,verif_memcpy_loop.0:40,X_compress2.0:%d' % (n, n, n + H + 20, n + H + 2), timeout=900, mem_gb=8, object_bits=12, flags=FLAGS,
+                    desc='PNG save of a %dx%d image (alpha=%d): signature, IHDR/gAMA/IDAT/IEND framing with big-endian lengths and CRC over type+data (zlib stubs), scanline buffer handed to compress2' % (W, H, A),
+                    bounds='image %dx%d, all pixel bytes; zlib functions are stubs' % (W, H))
+    def raw(W, H, A):
+        n = W * H * (3 + A) + 2
+        return dict(name='raw_ctor_%dx%da%d' % (W, H, A), unit='img', harness='h_raw.c', defs={'W': W, 'H': H, 'ALPHA': A}, unwind=8,
+                    unwindset='harness.0:%d,X_fread.0:%d,verif_memcpy_loop.0:%d' % (n, n, n), timeout=600, mem_gb=6, object_bits=12, flags=FLAGS,
+                    desc='Image(FILE*, %d, %d, alpha=%d) raw constructor: io_error iff short file, pixel buffer released on the exception path' % (W, H, A),
+                    bounds='image %dx%d, every file length 0..size' % (W, H))
+    if tier == 'quick':
+        qs += [png(2, 2, 0), png(1, 2, 1), raw(2, 2, 0)]
     if tier == 'quick':
         qs += [bmpvar(2, 2, 24, 0, 0, 40), bmpvar(3, 2, 24, 0, 1, 40), bmpvar(2, 2, 32, 0, 0, 40), bmpvar(2, 2, 32, 3, 0, 124, 2), bmpvar(1, 2, 32, 3, 1, 108)]
     if tier == 'quick':
